@@ -403,6 +403,13 @@ pub fn run(ctx: &mut Ctx) {
         if idx % 5 == 0 {
             o.max_depth = 0; // single-leaf trees only
         }
+        if idx % 8 == 3 {
+            // the header's ALPHA is taken as written, also outside the range the setter clamps to
+            o.alpha = *rng.pick(&[-0.25, 1.25, 1.0, -1.0, 0.999]);
+        }
+        if idx % 4 == 2 {
+            o.trees_reversed = true;
+        }
         let spec = voicegen::generate(&o, &env.pool, rng);
         let bytes = voicegen::write(&spec);
         let rv = match read_voice(&bytes) {
